@@ -15,14 +15,15 @@ import (
 
 // genReader produces prefix ++ unit ++ unit ++ … (endless when unit != "").
 type genReader struct {
-	prefix   []byte
-	unit     []byte
-	pulled   int
-	hardCap  int
-	overCap  bool
-	ch       *Chooser
-	chunkMax int
-	endErr   error // for finite streams
+	eofWithData bool // finite streams: the final Read returns its bytes together with the end (io.Reader allows it)
+	prefix      []byte
+	unit        []byte
+	pulled      int
+	hardCap     int
+	overCap     bool
+	ch          *Chooser
+	chunkMax    int
+	endErr      error // for finite streams
 }
 
 func (g *genReader) byteAt(i int) byte {
@@ -58,6 +59,9 @@ func (g *genReader) Read(p []byte) (int, error) {
 		p[i] = g.byteAt(g.pulled + i)
 	}
 	g.pulled += n
+	if g.eofWithData && len(g.unit) == 0 && g.pulled >= len(g.prefix) {
+		return n, g.endErr
+	}
 	return n, nil
 }
 
@@ -155,7 +159,11 @@ func runLimitsWorld(rc *RunCtx) *Outcome {
 				fill = 0
 			}
 			sb.WriteString(head + strings.Repeat("z", fill) + tail)
+			if ch.Chance(1, 4, "keep-alive comment block between events") {
+				sb.WriteString(": ping" + eol + eol)
+			}
 		}
+		g.eofWithData = ch.Chance(1, 3, "end reported together with the last bytes")
 		desc = "finite stream with sized events"
 	}
 	g.prefix = []byte(sb.String())
@@ -218,6 +226,19 @@ func runLimitsWorld(rc *RunCtx) *Outcome {
 	lastEnd := 0
 	if n := len(obs.events); n > 0 {
 		lastEnd = ref.End[n-1]
+	}
+	// blocks that hold no event (comment-only keep-alives) right after the last delivered event are
+	// complete tokens as well: the parser has consumed them before it meets what does not fit
+	isEventEnd := map[int]bool{}
+	for _, e := range ref.End {
+		isEventEnd[e] = true
+	}
+	for _, be := range ref.BlockEnds {
+		if be > lastEnd && !isEventEnd[be] && be-lastEnd <= effective {
+			lastEnd = be
+		} else if be > lastEnd {
+			break
+		}
 	}
 	slack := 8
 	if overCap {
